@@ -22,6 +22,7 @@ RULE = ("one run (in 'two-groups': two slow groups on one master sharing termina
         "oracles per cycle >= 2; distinct = distinct event-log digests; non-trivial = at "
         "least 4 cycles with at least one linked variable")
 RULE += '; since the 4th session groups are of a user subclass of SyncGroup in 30 % of the cases'
+RULE += '; also groups stopped through their running flag (the last frame is looked for), 997-999 further group starts between the two groups of a run (6 %), and a first start that fails without a free FMMU and is repeated with direct addressing (10 %)'
 COMPONENTS = {
     "real": ["ebpfcat.ebpfcat.SyncGroup.start/update_devices", "SyncGroupBase.run/"
              "allocate/map_fmmu", "SterilePacket", "PacketVar/TerminalVar (Python path)",
